@@ -86,8 +86,8 @@ def herm_problem(rng, gevp=False, cplx=None):
 
 def side_case(seed):
     rng = random.Random(seed)
-    clause = rng.choice(['ritz', 'fixed', 'fullrank', 'deflation', 'monotone', 'power'])
-    gevp = rng.random() < 0.3 and clause in ('ritz', 'fullrank')
+    clause = rng.choice(['ritz', 'fixed', 'fullrank', 'deflation', 'deflation2', 'monotone', 'power', 'power_gevp'])
+    gevp = (rng.random() < 0.3 and clause in ('ritz', 'fullrank')) or clause == 'power_gevp'
     dims, cplx, A, G, Am, Gm = herm_problem(rng, gevp)
     order = len(dims)
     n = Am.shape[0]
@@ -135,6 +135,31 @@ def side_case(seed):
             w2 = np.linalg.eigvalsh(Am + sh * np.outer(v, np.conj(v)))
             if abs(lam1 - w2[-1]) > tol:
                 return 'deflation with shift does not match the explicitly shifted operator: %.8g vs %.8g' % (lam1, w2[-1]), desc
+        elif clause == 'deflation2':
+            if n < 3:
+                return None, desc
+            ps = [TT(V[:, -1 - k].reshape(dims + [1] * order)) for k in range(2)]
+            sh = -(abs(w[-1]) + abs(w[0]) + 1.0)
+            x0 = gen_tt(rng, dims, [1] * order, max_ranks(dims), cplx, 'float')
+            lam1, x1, _ = evp.als(A, x0, previous=ps, shift=sh, repeats=2, solver='eigh', sigma=float(w[-1]))
+            w2 = np.linalg.eigvalsh(Am + sh * sum(np.outer(V[:, -1 - k], np.conj(V[:, -1 - k])) for k in range(2)))
+            if abs(lam1 - w2[-1]) > tol:
+                return 'deflating two tensors with a shift does not match the explicitly shifted operator: %.8g vs %.8g' % (lam1, w2[-1]), desc
+        elif clause == 'power_gevp':
+            x0 = gen_tt(rng, dims, [1] * order, max_ranks(dims), cplx, 'float')
+            k = rng.randrange(n)
+            sig = float(w[k]) + 0.01 * (1 if k == n - 1 else min(1.0, (w[k + 1] - w[k]) / 4))
+            d2 = np.sort(abs(w - sig))
+            if n > 1 and (d2[0] < 1e-6 or d2[1] / max(d2[0], 1e-12) < 3):
+                return None, desc
+            lam, xt = evp.power_method(A, x0, operator_gevp=G, repeats=25, sigma=sig)
+            xv = dense(xt.cores).reshape(n)
+            rq = np.vdot(xv, Am @ xv) / np.vdot(xv, Gm @ xv)
+            if abs(lam - rq) > tol:
+                return 'power_method (generalised) reports %r, the Rayleigh quotient of its eigentensor is %r' % (lam, rq), desc
+            near = w[np.argmin(abs(w - sig))]
+            if abs(np.real(lam) - near) > 1e-5 * (1 + abs(near)):
+                return 'power_method (generalised) did not converge to the eigenvalue nearest its shift: %.8g vs %.8g' % (np.real(lam), near), desc
         elif clause == 'monotone':
             x0 = gen_tt(rng, dims, [1] * order, [min(a, b) for a, b in zip(rranks(rng, order, 2), max_ranks(dims))], cplx, 'float')
             sig = float(w[-1]) + 0.5
